@@ -192,6 +192,60 @@ func init() {
 		}
 		return Tuple{MkBV(uint64(sl.Len), 64), (*IfaceVal)(nil)}
 	}
+	// ---------------- sync.Map: an ordinary map of interface keys/values kept in the cell's tag ----------------
+	smap := func(t *Thread, v Value) *MapObj {
+		c, _ := v.(*Cell)
+		if c == nil {
+			rtPanic("invalid memory address or nil pointer dereference")
+		}
+		if m, ok := c.Tag.(*MapObj); ok {
+			return m
+		}
+		t.ex.objN++
+		m := &MapObj{KT: tAny, VT: tAny, ID: t.ex.objN}
+		c.Tag = m
+		return m
+	}
+	I["(*sync.Map).Load"] = func(t *Thread, fn *ssa.Function, a []Value) Value {
+		v, found := t.mapLookup(smap(t, a[0]), a[1], tAny)
+		if t.ex.branch(found) {
+			return Tuple{v, TTrue}
+		}
+		return Tuple{(*IfaceVal)(nil), TFalse}
+	}
+	I["(*sync.Map).Store"] = func(t *Thread, fn *ssa.Function, a []Value) Value {
+		t.mapUpdate(smap(t, a[0]), a[1], a[2])
+		return nil
+	}
+	I["(*sync.Map).LoadOrStore"] = func(t *Thread, fn *ssa.Function, a []Value) Value {
+		m := smap(t, a[0])
+		v, found := t.mapLookup(m, a[1], tAny)
+		if t.ex.branch(found) {
+			return Tuple{v, TTrue}
+		}
+		t.mapUpdate(m, a[1], a[2])
+		return Tuple{a[2], TFalse}
+	}
+	I["(*sync.Map).Delete"] = func(t *Thread, fn *ssa.Function, a []Value) Value {
+		m := smap(t, a[0])
+		for _, e := range m.E {
+			e.P = And(e.P, Not(eqValue(e.K, a[1], tAny)))
+		}
+		return nil
+	}
+	I["(*sync.Map).Range"] = func(t *Thread, fn *ssa.Function, a []Value) Value {
+		m := smap(t, a[0])
+		f := a[1].(*FuncVal)
+		for _, e := range append([]*MapEntry{}, m.E...) {
+			if t.ex.branch(e.P) {
+				r := t.callFunc(f, []Value{e.K, e.V}).(*Term)
+				if !t.ex.branch(r) {
+					break
+				}
+			}
+		}
+		return nil
+	}
 	I["math.Min"] = func(t *Thread, fn *ssa.Function, a []Value) Value {
 		x, y := a[0].(*Term), a[1].(*Term)
 		return Ite(RCmp(OpRLT, y, x), y, x)
